@@ -3,3 +3,5 @@
 package y
 
 func Where(id int) {}
+
+func WhereV(id int) int { return 0 }
